@@ -9,7 +9,7 @@ SUBJECT = {
  'PF1': ['fix: C accessor offset'], 'PF2': ['fix: XBuffer.free on a completely'], 'PF3': ['fix: Struct.__setstate__'],
  'PF4': ['fix: XContext.__getstate__'], 'PF5': ['fix: topological_sort'], 'PF6': ['fix: bound-check indices'],
  'PF7': ['fix: item offset table'], 'PF8': ['fix: item offset table'], 'PF9': ['fix: initialising a non-C-ordered'],
- 'PF10': ['fix: to_nplike/to_nparray'], 'PF11': ['fix: Array._to_buffer must not byte-copy'], 'PF12': ['fix: Struct._update must not byte-copy'],
+ 'PF10': ['fix: to_nplike/to_nparray must apply'], 'PF11': ['fix: Array._to_buffer must not byte-copy'], 'PF12': ['fix: Struct._update must not byte-copy'],
  'PF13': ['fix: writing a UnionRef'], 'PF14': ['fix: refuse assigning a string', 'fix: refuse array item'], 'PF15': ['fix: pass xobject arrays'],
  'PF16': ['fix: keep dynamically sized array items'], 'PF17': ['fix: refuse a cross-buffer'], 'PF18': ['fix: to_dict must look up'],
  'PF19': ['fix: Array._to_buffer must refuse'],
